@@ -27,6 +27,7 @@ import (
 	"os"
 	"os/exec"
 	"path/filepath"
+	"reflect"
 	"regexp"
 	"runtime"
 	"sort"
@@ -36,6 +37,8 @@ import (
 	"sync/atomic"
 	"testing"
 	"time"
+
+	"github.com/LiskHQ/lisk-engine/pkg/blockchain"
 
 	"verifharness/evid"
 )
@@ -78,7 +81,7 @@ func isKnown(sig string) bool { return !assumeFixed && evid.R.IsKnown(sig) }
 // Workload and result (JSON between parent and child).
 
 type Workload struct {
-	Kind   string `json:"kind"` // chain | pool | event | store | sync | tip | lin
+	Kind   string `json:"kind"` // chain | pool | event | store | sync | tip | lin | rpc
 	Procs  int    `json:"procs"`
 	Seed   uint64 `json:"seed"`
 	Budget int    `json:"budget_s"` // wall-clock budget of the child (inconclusive when hit)
@@ -90,6 +93,7 @@ type Workload struct {
 	Sync  *SyncW  `json:"sync,omitempty"`
 	Tip   *TipW   `json:"tip,omitempty"`
 	Lin   *LinW   `json:"lin,omitempty"`
+	Rpc   *RpcW   `json:"rpc,omitempty"`
 }
 
 type Failure struct {
@@ -284,10 +288,13 @@ func (r *run) workerState(last []int64) string {
 // Goroutine dumps.
 
 type gor struct {
-	id     int
-	state  string
-	frames []string // function names, innermost first
-	text   string
+	id      int
+	state   string
+	frames  []string // function names, innermost first
+	files   []string // source file of each frame (parallel to frames, "" if the dump had none)
+	parent  int      // goroutine that created this one (0 if unknown)
+	creator string   // function named in the "created by" line
+	text    string
 }
 
 func allStacks() string {
@@ -302,6 +309,7 @@ func allStacks() string {
 }
 
 var gorHead = regexp.MustCompile(`^goroutine (\d+) \[([^\],]+)`)
+var createdBy = regexp.MustCompile(`^created by (.+?)(?: in goroutine (\d+))?$`)
 
 func parseDump(s string) []gor {
 	var out []gor
@@ -313,18 +321,73 @@ func parseDump(s string) []gor {
 		}
 		id, _ := strconv.Atoi(m[1])
 		g := gor{id: id, state: m[2], text: blk}
-		for _, ln := range strings.Split(blk, "\n")[1:] {
-			if strings.HasPrefix(ln, "\t") || strings.HasPrefix(ln, "created by ") {
+		lines := strings.Split(blk, "\n")[1:]
+		for i, ln := range lines {
+			if strings.HasPrefix(ln, "\t") {
 				continue
 			}
-			if i := strings.LastIndex(ln, "("); i > 0 {
-				ln = ln[:i]
+			if strings.HasPrefix(ln, "created by ") {
+				if c := createdBy.FindStringSubmatch(ln); c != nil {
+					g.creator = c[1]
+					g.parent, _ = strconv.Atoi(c[2])
+				}
+				continue
+			}
+			if j := strings.LastIndex(ln, "("); j > 0 {
+				ln = ln[:j]
+			}
+			file := ""
+			if i+1 < len(lines) && strings.HasPrefix(lines[i+1], "\t") {
+				file = strings.TrimSpace(lines[i+1])
+				if j := strings.LastIndex(file, ":"); j > 0 {
+					file = file[:j]
+				}
 			}
 			g.frames = append(g.frames, ln)
+			g.files = append(g.files, file)
 		}
 		out = append(out, g)
 	}
 	return out
+}
+
+// engineSrcRoot is the directory of the engine's pkg/ tree as compiled into this binary ("/repo/pkg/" or the scratch
+// worktree's). A closure defined in an engine function that the compiler inlined into a harness function is NAMED after
+// the harness function (verifharness/c20.(*chainEnv).readOp.(*Syncer).HandleRPCEndpointGetHighestCommonBlock.func4.1);
+// only its source file tells that it is engine code. (A seeded deadlock inside such a closure was once filed as
+// "no goroutine parked inside the engine packages" because frames were recognised by name only.)
+var engineSrcRoot = func() string {
+	pc := reflect.ValueOf(blockchain.NewChain).Pointer()
+	if f := runtime.FuncForPC(pc); f != nil {
+		file, _ := f.FileLine(pc)
+		if i := strings.LastIndex(file, "/pkg/blockchain/"); i >= 0 {
+			return file[:i] + "/pkg/"
+		}
+	}
+	return ""
+}()
+
+var closureNumber = regexp.MustCompile(`\.func\d+(\.\d+)*$`)
+
+// engineFrame names frame i if it is engine code ("" otherwise): by its function name, or - for closures of inlined
+// engine functions - by its source file; then the name is rebuilt from the directory and the receiver part, with the
+// closure numbering (which depends on the inlining site) cut off.
+func (g gor) engineFrame(i int) string {
+	f := g.frames[i]
+	if strings.HasPrefix(f, enginePkg) {
+		return strings.TrimPrefix(f, enginePkg)
+	}
+	if engineSrcRoot == "" || i >= len(g.files) || !strings.HasPrefix(g.files[i], engineSrcRoot) {
+		return ""
+	}
+	dir := filepath.Dir(strings.TrimPrefix(g.files[i], engineSrcRoot))
+	tail := f
+	if j := strings.LastIndex(f, ".(*"); j >= 0 {
+		tail = f[j+1:]
+	} else if j := strings.LastIndex(f, "/"); j >= 0 {
+		tail = f[j+1:]
+	}
+	return dir + "." + closureNumber.ReplaceAllString(tail, ".func")
 }
 
 func (g gor) has(fn string) int {
@@ -338,9 +401,9 @@ func (g gor) has(fn string) int {
 
 // firstEngine is the innermost frame inside the engine packages ("" if none).
 func (g gor) firstEngine() string {
-	for _, f := range g.frames {
-		if strings.HasPrefix(f, enginePkg) {
-			return strings.TrimPrefix(f, enginePkg)
+	for i := range g.frames {
+		if n := g.engineFrame(i); n != "" {
+			return n
 		}
 	}
 	return ""
@@ -556,6 +619,8 @@ func childMain(path string) {
 		runTip(r)
 	case "lin":
 		runLin(r)
+	case "rpc":
+		runRpc(r)
 	default:
 		r.fail("harness", "unknown workload kind %q", w.Kind)
 	}
